@@ -28,7 +28,7 @@ TIERS = dict(quick=dict(cases=24000, wall=40.0), thorough=dict(cases=1500000, wa
 def feat_for(tier):
     f = sched.default_feat()
     f["acts"] = dict(cont=8, ret=2, raise_=1, kbint=1, extend=2, remove=2, forever=1)
-    f["enter"] = dict(ok=14, raise_=1, ret=1)
+    f["enter"] = dict(ok=14, raise_=1, ret=1, kbint=1)
     f["real"] = True
     f["kbint_sleep"] = True
     if tier == "thorough":
